@@ -147,6 +147,8 @@ type fsig struct {
 	results      []*typ
 	shape        string // pure | resv | res | opt | pair | accepts
 	coqResT      string
+	recvName     string   // the receiver variable, when the receiver is a record
+	expanded     []string // parameters of a flattened struct type (their fields are in recvFields)
 	untranslated string
 	text         string // the Definition
 	file         int    // 1, 2, 3: which output file
@@ -285,6 +287,12 @@ func (f *ftrans) declStmt(x *ast.DeclStmt, next func() code) code {
 	case token.CONST:
 		return next() // evaluated by the loader
 	case token.VAR:
+		if len(gd.Specs) == 1 {
+			if vs := gd.Specs[0].(*ast.ValueSpec); len(vs.Values) == 1 && len(vs.Names) == 1 && vs.Type == nil {
+				// var x = e  is  x := e
+				return f.assignTo(vs.Names[0], vs.Values[0], true, x, next)
+			}
+		}
 		for _, s := range gd.Specs {
 			vs := s.(*ast.ValueSpec)
 			if len(vs.Values) != 0 || vs.Type == nil {
@@ -292,7 +300,7 @@ func (f *ftrans) declStmt(x *ast.DeclStmt, next func() code) code {
 			}
 			t := f.p.typeOfExpr(vs.Type)
 			for _, nm := range vs.Names {
-				f.env.vars[nm.Name] = f.zero(t)
+				f.env.vars[nm.Name] = f.zeroR(t, x)
 			}
 		}
 		return next()
@@ -397,8 +405,31 @@ func (f *ftrans) assignTo(lhs ast.Expr, rhs ast.Expr, define bool, at ast.Stmt, 
 		if define {
 			f.p.bad(at, "assignment target")
 		}
+		if se, ok := l.X.(*ast.SelectorExpr); ok {
+			// x.F[i] = v for a record variable x: x.F = (x.F with element i replaced)
+			cur := f.expr(se)
+			if cur.t.k != kList || cur.term == "" {
+				f.p.bad(at, "element assignment into a %s", cur.t)
+			}
+			f.needMonadic(at, "an element assignment")
+			i := f.expr(l.Index)
+			v := f.expr(rhs)
+			if !sameType(v.t, cur.t.elem) || v.term == "" {
+				f.p.bad(at, "element of type %s assigned a %s", cur.t.elem, v.t)
+			}
+			nl := &val{t: cur.t, term: f.bind(fmt.Sprintf("lset %s %s %s", atom(cur.term), atom(f.toZ(i, l.Index)), atom(v.term)))}
+			return f.storeInto(se, nl, at, next)
+		}
 		return f.indexAssign(l, rhs, at, next)
 	case *ast.SelectorExpr:
+		if id, ok := l.X.(*ast.Ident); ok {
+			if base, ok := f.env.lookup(id.Name); ok && base.fields == nil && base.term != "" {
+				if _, isRec := recordOf(base.t); isRec {
+					v := f.expr(rhs)
+					return f.storeInto(l, v, at, next)
+				}
+			}
+		}
 		// tmpErr.Packet.UnitID = e : functional update of a symbolic struct
 		var path []string
 		cur := ast.Expr(l)
@@ -479,6 +510,9 @@ func (f *ftrans) exprStmt(x *ast.ExprStmt, next func() code) code {
 		return f.copyStmt(call, x, next)
 	case q == "binary.BigEndian.PutUint16" && len(call.Args) == 2:
 		return f.put16Stmt(call, x, next)
+	}
+	if qualName(call.Fun) == "sort.Sort" {
+		return f.sortIdiom(call, x, next)
 	}
 	// builder.Grow(n): no effect on the content; panics on a negative n
 	if sel, ok := call.Fun.(*ast.SelectorExpr); ok && sel.Sel.Name == "Grow" && len(call.Args) == 1 {
@@ -687,6 +721,18 @@ func (f *ftrans) assignedOuter(list []ast.Stmt) []string {
 				} else {
 					for _, l := range a.Lhs {
 						note(l)
+						// x.F = e / x.F[i] = e for a record variable x
+						tgt := l
+						if ix, ok := tgt.(*ast.IndexExpr); ok {
+							tgt = ix.X
+						}
+						if se, ok := tgt.(*ast.SelectorExpr); ok {
+							if id, ok := se.X.(*ast.Ident); ok {
+								if v, ok := f.env.lookup(id.Name); ok && v.fields == nil {
+									note(id)
+								}
+							}
+						}
 					}
 				}
 			case *ast.IncDecStmt:
@@ -694,6 +740,15 @@ func (f *ftrans) assignedOuter(list []ast.Stmt) []string {
 			case *ast.CallExpr:
 				if qualName(a.Fun) == "fmt.Fprintf" && len(a.Args) >= 1 {
 					note(a.Args[0])
+				}
+				if qualName(a.Fun) == "sort.Sort" && len(a.Args) == 1 {
+					if c, ok := a.Args[0].(*ast.CallExpr); ok && len(c.Args) == 1 {
+						tgt := c.Args[0]
+						if se, ok := tgt.(*ast.SelectorExpr); ok {
+							tgt = se.X
+						}
+						note(tgt)
+					}
 				}
 			}
 			return true
@@ -868,6 +923,12 @@ func (f *ftrans) loopBodyM(body []ast.Stmt, vars []string, extra map[string]*val
 }
 
 func (f *ftrans) rangeStmt(x *ast.RangeStmt, next func() code) code {
+	if ret, _ := hasControl(x.Body.List); ret && x.Tok == token.DEFINE {
+		// for i, x := range l { if c { return v } }
+		if id, ok := x.X.(*ast.Ident); !ok || f.env.has(id.Name) {
+			return f.findFirst(x, next)
+		}
+	}
 	if k, ok := x.Key.(*ast.Ident); !ok || k.Name != "_" || x.Tok != token.DEFINE {
 		f.p.bad(x, "range with an index variable")
 	}
@@ -905,7 +966,10 @@ func (f *ftrans) rangeStmt(x *ast.RangeStmt, next func() code) code {
 		return f.rangeBreak(x, elem.Name, brkCond, body, next)
 	}
 	xs := f.expr(x.X)
-	if xs.t.k != kBytes {
+	et := tU8
+	if xs.t.k == kList && xs.term != "" {
+		et = xs.t.elem
+	} else if xs.t.k != kBytes {
 		f.p.bad(x, "range over a %s", xs.t)
 	}
 	bs := f.takeBinds()
@@ -918,7 +982,7 @@ func (f *ftrans) rangeStmt(x *ast.RangeStmt, next func() code) code {
 		f.p.bad(x, "loop without effect on local variables")
 	}
 	en := f.fresh(elem.Name)
-	lam, init := f.loopBody(x.Body.List, vars, map[string]*val{elem.Name: {t: tU8, term: en}}, x)
+	lam, init := f.loopBody(x.Body.List, vars, map[string]*val{elem.Name: {t: et, term: en}}, x)
 	parts := strings.SplitN(lam, "|", 2)
 	pat := f.rebind(vars, x)
 	rhs := fmt.Sprintf("fold_left (fun %s %s => %s) %s %s", parts[0], en, parts[1], atom(l), init)
@@ -1180,11 +1244,21 @@ func (f *ftrans) ret(x *ast.ReturnStmt) code {
 				if sig.shape != sh {
 					f.p.bad(x, "tail call of %s (shape %s) from a function of shape %s", fd.name, sig.shape, sh)
 				}
+				args := f.callArgs(call, sig, recv)
+				app := sig.coqName + " " + strings.Join(args, " ")
+				if sh == "res" && f.sig.results[0].k == kAny && sig.results[0].k != kAny {
+					// the callee's value becomes an interface{}: tag it by its static type
+					w := anyWrap(sig.results[0])
+					if w == "" {
+						f.p.bad(x, "a %s returned as interface{}", sig.results[0])
+					}
+					f.noteResType("aval", x)
+					return leaf("map_ok " + w + " (" + app + ")")
+				}
 				if sh == "res" {
 					f.noteResType(sig.coqResT, x)
 				}
-				args := f.callArgs(call, sig, recv)
-				return leaf(sig.coqName + " " + strings.Join(args, " "))
+				return leaf(app)
 			}
 		}
 	}
@@ -1193,6 +1267,9 @@ func (f *ftrans) ret(x *ast.ReturnStmt) code {
 	}
 	if sh == "mut" {
 		return f.retMut(x)
+	}
+	if sh == "recv" {
+		return f.retRecv()
 	}
 	// return F(make(..)) / return e.Packet.Bytes(): the result of a call that can panic
 	switch sh {
@@ -1271,6 +1348,13 @@ func (f *ftrans) ret(x *ast.ReturnStmt) code {
 	return nil
 }
 
+// retRecv: a method that changes its (record) receiver yields the receiver as it is now.
+func (f *ftrans) retRecv() code {
+	cur, _ := f.env.lookup(f.sig.recvName)
+	bs := f.takeBinds()
+	return wrapBinds(bs, cLeaf{"Ok " + atom(cur.term)})
+}
+
 // retMut: a function that writes into its slice parameter returns nothing or that parameter.
 func (f *ftrans) retMut(at ast.Node) code {
 	var bp *param
@@ -1310,6 +1394,22 @@ func (f *ftrans) calleeOpt(call *ast.CallExpr) (*funcDecl, *val) {
 			return nil, nil // a package-qualified name
 		}
 		recv := f.expr(fn.X)
+		if recv.fields == nil && recv.term != "" {
+			// a record or a list of a named type: the receiver is one argument
+			if sn := structName(recv.t); sn != "" {
+				if _, isRec := recordTable[sn]; isRec {
+					if fd := f.p.findMethod(sn, fn.Sel.Name); fd != nil {
+						return fd, recv
+					}
+				}
+			}
+			if recv.t.k == kList && recv.t.name != "" {
+				if fd, ok := f.p.funcs[recv.t.name+"."+fn.Sel.Name]; ok {
+					return fd, recv
+				}
+			}
+			return nil, nil
+		}
 		if recv.fields == nil {
 			return nil, nil
 		}
